@@ -372,6 +372,11 @@ func (g *genState) genText() string {
 			}
 		}
 	}
+	if g.profile == "c05" && g.r.IntN(25) == 0 {
+		// one term many times over (more often than a byte can count), next to one other word
+		w := g.pick(g.words)
+		return strings.TrimSpace(strings.Repeat(w+" ", 250+g.r.IntN(20)) + g.pick(g.words))
+	}
 	n := g.r.IntN(9)
 	if g.r.IntN(10) == 0 {
 		n = 0
